@@ -182,6 +182,12 @@ var c05Programs = []string{
 	"histogram h buckets 1, 2, 4\n/^(\\d+\\.?\\d*)$/ {\n  h = $1\n}\n",
 	// text and concatenation
 	"text t\n/^(\\w+)$/ {\n  t += $1\n}\n",
+	// programs whose very last instruction ends the line: a `stop` closing the final else branch, an
+	// unconditional `stop` as the last statement, a runtime error raised by the last statement
+	"counter heads\ncounter gets\n/^HEAD/ {\n  heads++\n}\n/^GET/ {\n  gets++\n} else {\n  stop\n}\n",
+	"counter n\n/^x/ {\n  n++\n}\nstop\n",
+	"counter n\nn++\nstrptime(getfilename(), \"2006-01-02\")\n",
+	"counter n by k\ngauge g\n/^(\\w+)=(\\S+)$/ {\n  n[$1]++\n  g = int($2)\n} else {\n  g = strtol(\"zz\", 10)\n}\n",
 }
 
 var c05Lines = []string{
@@ -190,7 +196,7 @@ var c05Lines = []string{
 	"A 03/04/2020", "B 03/04/2020", "A 13/04/2020", "B 13/04/2020", "A 04/13/2020",
 	"Mar  7 10:11:12 host x", "Mar  7 10:11:12 host y", "Feb 30 10:11:12 h", "Dec 31 23:59:59 h",
 	"1700000000", "42", "-62135596800", "k=12", "k=x", "k=3.5", "stop now", "foo", "bar", "x y", "x", "p q",
-	"del foo", "exp foo", "exp bar", "1.5", "3", "100", "",
+	"del foo", "exp foo", "exp bar", "1.5", "3", "100", "", "HEAD /", "GET /",
 }
 
 func init() {
